@@ -214,14 +214,24 @@ func genInt(r *emit.Rand) int64 {
 	}
 }
 
+// genListen produces a listen address config.verify accepts: host:port with a numeric or well-known port.
+func genListen(r *emit.Rand) string {
+	host := emit.Pick(r, []string{"", "localhost", "127.0.0.1", "0.0.0.0", "[::1]", "[::]", "example.org", "h-" + strconv.Itoa(r.Intn(1000)), "été.example", "[fe80::1%25eth0]"})
+	port := emit.Pick(r, []string{"0", "1", "80", "8080", "9999", "65535", "http", "https", "", "0080", strconv.Itoa(r.Intn(65536))})
+	return host + ":" + port
+}
+
 // genValue produces a value that config.verify accepts for the property at path.
 func genValue(r *emit.Rand, p propRef) reflect.Value {
 	v := reflect.New(p.typ).Elem()
 	switch p.kind {
 	case "KStr":
-		if p.path == "cache.type" {
+		switch p.path {
+		case "cache.type":
 			v.SetString(emit.Pick(r, []string{"file", "memory"}))
-		} else {
+		case "proxy.listen", "webserver.listen":
+			v.SetString(genListen(r))
+		default:
 			v.SetString(genString(r)) // never empty
 		}
 	case "KBool":
@@ -348,6 +358,26 @@ func runC17() {
 					p.overwrite(ov)
 					overs[j] = true
 					nontrivial = true
+				}
+			}
+		}
+		// the one combination rule of config.verify (webserver.api_disabled requires dashboard_disabled) must hold
+		// for the saved and for the effective values: where it does not, the dashboard is switched off too
+		for j, p := range prs {
+			if p.path != "webserver.dashboard_disabled" {
+				continue
+			}
+			for k, q := range prs {
+				if q.path != "webserver.api_disabled" {
+					continue
+				}
+				if bases[k].Bool() && !bases[j].Bool() {
+					bases[j] = reflect.ValueOf(true)
+					p.setBase(bases[j])
+				}
+				if q.read().Bool() && !p.read().Bool() {
+					p.overwrite(reflect.ValueOf(true))
+					overs[j] = true
 				}
 			}
 		}
